@@ -82,6 +82,8 @@ class Surrogates(Cached):
         self._mut_embedding: int = 0
         self._embedding = None
         """The embedded times series"""
+        self._mut_data: int = 0
+        """mutation count tracking in-place changes of `self.original_data`"""
 
         #  Set flags
         self._normalized = False
@@ -198,6 +200,8 @@ class Surrogates(Cached):
                 self.original_data[i, :] /= std[i]
 
         self._normalized = True
+        # invalidate cache
+        self._mut_data += 1
 
     @staticmethod
     def recurrence_plot(embedding, threshold, silence_level=1):
@@ -277,7 +281,7 @@ class Surrogates(Cached):
     #  Define methods to generate sets of surrogate time series
     #
 
-    @Cached.method(name="original data fft", attrs=("_normalized",))
+    @Cached.method(name="original data fft", attrs=("_mut_data",))
     def original_data_fft(self):
         """
         Return one-dimensional discrete Fourier Transform via numpy.fft.rfft()
